@@ -39,6 +39,14 @@ var corpus = []string{
 	"x: {near: Top-Center}\n",
 	"direction: Right\n",
 	"a: {b: {c -> d: Link}}\n(a.b.c -> a.b.d)[0].style.stroke: red\n",
+	"x\nscenarios: {s: {}}\n",
+	"layers: {l: {x: null; x}}\n***.style.font-size: 18\n",
+	"x.Shape: circle\n",
+	"square: {Width: 200}\n",
+	"LaYErS: {c: {d}}\nb\n",
+	"x: lİnk\n",
+	"a\nlayers: {l: {b}}\nscenarios: {s: {c}}\nsteps: {t: {d}; u: {e}}\n",
+	"layers: {l: {b}}\na\nscenarios: {s: {c}}\n",
 }
 
 func compile(src string, files map[string]string) (proj map[string]any, cfg []string, errs string) {
@@ -270,7 +278,7 @@ func run(c *hl.Ctx) error {
 		emitCase(c, s.Name, s.Src, nil, nil)
 		c.Count("origin:seed:" + s.Name[:strings.IndexByte(s.Name, ':')])
 	}
-	nm := c.Pick(600, 40000)
+	nm := c.Pick(600, 15000)
 	for i := 0; i < nm && len(seeds) > 0; i++ {
 		s := seeds[r.Intn(len(seeds))]
 		src, what := fmtlib.Mutate(r, s.Src)
@@ -278,7 +286,7 @@ func run(c *hl.Ctx) error {
 		c.Count(what)
 	}
 	g := &fmtlib.Gen{R: r}
-	n := c.Pick(3500, 250000)
+	n := c.Pick(3500, 100000)
 	forced := 0
 	for i := 0; i < n; i++ {
 		prof := fmtlib.Profiles[r.Intn(len(fmtlib.Profiles))]
